@@ -114,11 +114,56 @@ func c07Year(w *W, y int) {
 	have := map[[2]int]bool{}
 	j0 := r1JDN(maxInt(y-1, 1), 11, 1)
 	j1 := r1JDN(y+1, 3, 15)
+	// two walking objects cross the same span by stepping only (Next(1) forwards from its first day, Next(-1) backwards
+	// from its last): no step may yield a lunar date other than the image of the civil day it stands on
+	var walkF *calendar.Lunar
+	{
+		var walkB *calendar.Lunar
+		for j := j1; j >= j0; j-- {
+			cy, cm, cd := r1FromJDN(j)
+			var l *calendar.Lunar
+			if _, p := try(func() { l = calendar.NewSolarFromYmd(cy, cm, cd).GetLunar() }); p {
+				walkB = nil
+				continue
+			}
+			if walkB == nil {
+				walkB = l
+				continue
+			}
+			prevW := walkB
+			walkB = nil
+			if msg, p := try(func() { walkB = prevW.Next(-1) }); p {
+				w.Viol(fmt.Sprintf("C07:walk:panic:%04d-%02d-%02d", cy, cm, cd), "Lunar.Next(-1) panicked while walking backwards: "+msg, []int{cy, cm, cd})
+				continue
+			}
+			w.R.Transitions++
+			if walkB.GetYear() != l.GetYear() || walkB.GetMonth() != l.GetMonth() || walkB.GetDay() != l.GetDay() || !solarEq(walkB.GetSolar(), cy, cm, cd, 0, 0, 0) {
+				w.Viol(fmt.Sprintf("C07:walk:%04d-%02d-%02d", cy, cm, cd), fmt.Sprintf("stepping backwards by Next(-1) reaches lunar %s on civil %s; the image of %04d-%02d-%02d is %s", lunarYmd(walkB), walkB.GetSolar().ToYmd(), cy, cm, cd, lunarYmd(l)), []int{cy, cm, cd})
+				walkB = l
+			}
+		}
+	}
 	for j := j0; j <= j1; j++ {
 		cy, cm, cd := r1FromJDN(j)
 		var l *calendar.Lunar
 		if _, p := try(func() { l = calendar.NewSolarFromYmd(cy, cm, cd).GetLunar() }); p {
+			walkF = nil
 			continue
+		}
+		if walkF == nil {
+			walkF = l
+		} else {
+			prevW := walkF
+			walkF = nil
+			if msg, p := try(func() { walkF = prevW.Next(1) }); p {
+				w.Viol(fmt.Sprintf("C07:walk:panic:%04d-%02d-%02d", cy, cm, cd), "Lunar.Next(1) panicked while walking forwards: "+msg, []int{cy, cm, cd})
+			} else {
+				w.R.Transitions++
+				if walkF.GetYear() != l.GetYear() || walkF.GetMonth() != l.GetMonth() || walkF.GetDay() != l.GetDay() || !solarEq(walkF.GetSolar(), cy, cm, cd, 0, 0, 0) {
+					w.Viol(fmt.Sprintf("C07:walk:%04d-%02d-%02d", cy, cm, cd), fmt.Sprintf("stepping forwards by Next(1) reaches lunar %s on civil %s; the image of %04d-%02d-%02d is %s", lunarYmd(walkF), walkF.GetSolar().ToYmd(), cy, cm, cd, lunarYmd(l)), []int{cy, cm, cd})
+					walkF = l
+				}
+			}
 		}
 		if l.GetYear() == y {
 			have[[2]int{l.GetMonth(), l.GetDay()}] = true
